@@ -555,3 +555,33 @@ class XrOpenDataset(Contract):
 
 
 fuc('sgz_xarray.py::SeismicZfpBackendEntrypoint.open_dataset', props=['C02', 'C05'])(XrOpenDataset)
+
+
+class GetSourceDataHash(Contract):
+    """get_source_data_hash(): the 40 hexadecimal digits (two per byte, leading zeros kept) of header bytes 960..979 -- the place write_hash
+    puts the SHA-1 digest of the source samples (C20: the hash a user sees IS the stored hash, for every digest incl. those starting with 0)"""
+    may_raise = ()
+
+    def inputs(self, c):
+        prog = c.ex.prog
+        hb = BM.file_bytes(BM.K_FILE, 0, 2 * BLK)
+        me = SObj(prog.klass('SgzReader'), dict(headerbytes=hb))
+        return dict(self=me, _hb=hb)
+
+    def call_args(self, a):
+        return [], {}, a['self']
+
+    def post(self, c, a, result):
+        from pyvc.models import SymStr
+        ok = isinstance(result, SymStr) and result.kind == 'hex' and isinstance(result.payload, BM.BytesBase)
+        c.ensure(mk_bool(ok), 'result_is_bytes_hex_two_digits_per_byte')
+        if not ok:
+            return
+        b = result.payload
+        c.ensure(eq(b.length, 20), 'twenty_bytes')
+        q = c.sym_int('hq', lo=0, hi=19, name='digest_byte')
+        t = b.tok(q)
+        c.ensure(mk_bool(z3.And(t.zk() == BM.K_FILE, t.zo() == zint(add(960, q)))), 'bytes_960_to_979_of_the_file')
+
+
+fuc('read.py::SgzReader.get_source_data_hash', props=['C20', 'C03'])(GetSourceDataHash)
